@@ -130,6 +130,8 @@ type World struct {
 
 	// InBubble: the run executes inside a synctest bubble; the wall clock follows w.Now.
 	InBubble bool
+	// Poked: a balance near 2^64 was written straight into the trie (C05 boundary states).
+	Poked bool
 
 	MB         *block.MagicBlock
 	initStates *state.InitStates
@@ -407,9 +409,9 @@ type Outcome struct {
 	// sender account as stored in the block trie before / after the transaction
 	PreBal, PostBal     currency.Coin
 	PreNonce, PostNonce int64
-	Diff     map[string]LeafChange // path -> change (computed lazily)
-	diffDone bool
-	bc       *BlockCtx
+	Diff                map[string]LeafChange // path -> change (computed lazily)
+	diffDone            bool
+	bc                  *BlockCtx
 }
 
 // BlockCtx is a block under assembly.
